@@ -200,7 +200,7 @@ func (a *AnalyzedSchema) inferArray() error {
 	//
 	// NOTE: the spec package misses the distinction between:
 	// items: [] and items: {}, so we consider both arrays here.
-	a.IsArray = a.isArrayType() && (a.schema.Items == nil || a.schema.Items.Schemas == nil)
+	a.IsArray = a.isArrayType() && (a.schema.Items == nil || len(a.schema.Items.Schemas) == 0)
 	if a.IsArray && a.hasItems {
 		if a.schema.Items.Schema != nil {
 			itsch, err := Schema(SchemaOpts{
@@ -225,7 +225,7 @@ func (a *AnalyzedSchema) inferArray() error {
 }
 
 func (a *AnalyzedSchema) inferTuple() {
-	tuple := a.hasItems && a.schema.Items.Schemas != nil
+	tuple := a.hasItems && len(a.schema.Items.Schemas) > 0
 	a.IsTuple = tuple && !a.hasAdditionalItems
 	a.IsTupleWithExtra = tuple && a.hasAdditionalItems
 }
@@ -256,11 +256,11 @@ func (a *AnalyzedSchema) initializeFlags() {
 }
 
 func (a *AnalyzedSchema) isObjectType() bool {
-	return !a.hasRef && (a.schema.Type == nil || a.schema.Type.Contains("") || a.schema.Type.Contains("object"))
+	return !a.hasRef && (len(a.schema.Type) == 0 || a.schema.Type.Contains("") || a.schema.Type.Contains("object"))
 }
 
 func (a *AnalyzedSchema) isArrayType() bool {
-	return !a.hasRef && (a.schema.Type != nil && a.schema.Type.Contains("array"))
+	return !a.hasRef && (len(a.schema.Type) > 0 && a.schema.Type.Contains("array"))
 }
 
 // isAnalyzedAsComplex determines if an analyzed schema is eligible to flattening (i.e. it is "complex").
